@@ -49,6 +49,7 @@ class TypeGen:
         self.allow_self = True
         self.allow_inherit = True
         self.allow_field_engine = True
+        self.allow_stype = not schema_only
         self.dc_config_fn = dc_config_fn
         self.mixins = mixins
         self.vgen = Gen(fam, rng)
@@ -174,6 +175,8 @@ class TypeGen:
             return ("any",)
         if not self.allow_named:
             return self.scalar()
+        if x < 0.82 and self.allow_stype:
+            return self.serializable_type()
         if x < 0.86:
             return self.named_tuple(depth - 1)
         if x < 0.91:
@@ -310,6 +313,11 @@ class TypeGen:
         return ("gdc", name, (arg,))
 
     # ------------------------------------------------------------ named
+    def serializable_type(self):
+        name = self.fresh("ST")
+        self.fam.add({"k": "stype", "name": name, "flavour": self.rng.choice(["plain", "annotations"])})
+        return ("stype", name)
+
     def named_tuple(self, depth):
         r = self.rng
         name = self.fresh("NT")
@@ -520,7 +528,7 @@ class TypeGen:
         'as_dict' loudly when the class is built, so such fields get no NamedTuple engine option."""
         seen = _seen if _seen is not None else set()
         for n in tast.walk(t):
-            if n[0] in ("date", "datetime", "time"):
+            if n[0] in ("date", "datetime", "time", "stype"):      # an annotated SerializableType speaks date on the wire
                 return False
             if n[0] in ("nt", "td") and n[1] not in seen:
                 seen.add(n[1])
